@@ -35,7 +35,7 @@ CHECKS['C15'] = dict(
           'ACT/fixed, ICMA regular period = 1/frequency, and error_kind: no failure other than FinError is reachable '
           '(ZeroDivision only for a zero-length ICMA period). Multi-year ACT/ACT ISDA = closed form of the per-year sum (its '
           'shape across years, antisymmetry) are theorems in Props/C15b and ACT/365L = its rule (all dates from 1900, with or '
-          'without the period end) in Props/C15c; all of them are also compared by the correspondence (implementation = generated model = source-independent spec, numerator '
+          'without the period end) in Props/C15c; sign and bounds in Props/C15d (ACT/ACT ISDA > 0 for start < end across years and same-year sign, ICMA fraction in [0, 1/f], < 1/f before the period end and monotone in settlement, ACT/365L sign and |frac| <= days/365); all of them are also compared by the correspondence (implementation = generated model = source-independent spec, numerator '
           'and denominator exact) on >=6e4 date pairs per quick run.'),
     note=BASE_NOTE + 'Spec formulas are a transcription of ISDA 2006 4.16 / ICMA 251; theorems about serials assume years >= 1900/1901 (the domain of the property starts 1 Mar 1900).',
     technique='Lean 4 theorems on a model regenerated from the source (py2lean) + model/implementation/spec correspondence with exact rationals',
